@@ -171,7 +171,8 @@ pub fn expr_type(r: &Recipe, e: &MExpr) -> Result<MType, Why> {
                 if stars > 0 {
                     return Err("would be an array of boolean arrays".into());
                 }
-                return Ok(t);
+                // a bare boolean container is the list of its values
+                return Ok(bool_arr());
             }
             op_fits(r, &t, op)?;
             Ok(if stars > 0 { bool_arr() } else { MType::Bool })
@@ -191,7 +192,11 @@ pub fn expr_type(r: &Recipe, e: &MExpr) -> Result<MType, Why> {
         }
         MExpr::Quant { arg, .. } => {
             let t = match &**arg {
-                MQArg::Index(ix) => index_type(r, ix)?,
+                // the value of an index expression with [*] is an array of its
+                // element type, so `any(ab[*])` / `any(aab[*])` are not boolean arrays
+                MQArg::Index(ix) => index_value_type(r, ix).and_then(|t| {
+                    if ix.stars() > 0 { Err("index expression with [*] directly under a quantifier".into()) } else { Ok(t) }
+                })?,
                 MQArg::Logical(e) => expr_type(r, e)?,
             };
             if t == bool_arr() { Ok(MType::Bool) } else { Err(format!("quantifier over {}", t.show())) }
@@ -224,7 +229,7 @@ pub fn grey_zone(r: &Recipe, e: &MExpr) -> bool {
         MExpr::Not(a) | MExpr::Paren(a) => grey_zone(r, a),
         MExpr::Comb { items, .. } => items.iter().any(|i| grey_zone(r, i)),
         MExpr::Quant { arg, .. } => match &**arg {
-            MQArg::Index(ix) => ix.stars() > 0 || grey_index(r, ix),
+            MQArg::Index(ix) => grey_index(r, ix),
             MQArg::Logical(e) => grey_zone(r, e),
         },
     }
